@@ -768,11 +768,12 @@ int vf(int n, ...) { va_list ap; int t = 0; __builtin_va_start(ap, n); while (n-
 int vf2(int n, ...) { va_list ap; long t = n; __builtin_va_start(ap, n); t += __builtin_va_arg(ap, long); t += *__builtin_va_arg(ap, char *); t += (long)__builtin_va_arg(ap, double); __builtin_va_end(ap); return (int)t; }
 int vg(double a, long b, ...) { va_list ap; int t; __builtin_va_start(ap, b); t = (int)a + (int)b + (int)__builtin_va_arg(ap, long); __builtin_va_end(ap); return t; }
 int vh(float a, _Bool b, long c, ...) { va_list ap; int t; __builtin_va_start(ap, c); t = (int)a + b + (int)c + (int)__builtin_va_arg(ap, double); __builtin_va_end(ap); return t; }
+int vz(int n, ...) { return n; }
 int fs(struct S a) { return a.m + a.c[1]; }
 struct O gso(int a) { struct O r = {{a, 2, {1, 2, 3}}, {a}, 3}; return r; }
 int fo(struct O a) { return a.in.m + a.h; }"""
-HELPER_DECLS = "int fi(int); double fd(double); struct S gs(int); int vf(int, ...); int vf2(int, ...); int vg(double, long, ...); int vh(float, _Bool, long, ...); int fs(struct S); struct O gso(int); int fo(struct O);"
-MAIN_DEF = "int main(void) { int z = 0; struct S s = gs(1); return fn(1, 2, 3.0, s, &z) + vf(2, 1, 2, 3.0) + vg(1, 2, 3L) + vh(1, 2, 3, 4.0); }"
+HELPER_DECLS = "int fi(int); double fd(double); struct S gs(int); int vf(int, ...); int vf2(int, ...); int vg(double, long, ...); int vh(float, _Bool, long, ...); int vz(int, ...); int fs(struct S); struct O gso(int); int fo(struct O);"
+MAIN_DEF = "int main(void) { int z = 0; struct S s = gs(1); return fn(1, 2, 3.0, s, &z) + vf(2, 1, 2, 3.0) + vg(1, 2, 3L) + vh(1, 2, 3, 4.0) + vz(5); }"
 
 
 def gen_render(c, full):
